@@ -64,6 +64,9 @@ type Unit struct {
 	InitPkgs    []string          `json:"init_pkgs"`
 	NoopPkgs    []string          `json:"noop_pkgs"`
 	Replace     map[string]string `json:"replace"`
+	// ReplaceAlways: replacements that also apply when native traces are re-executed concretely
+	// (pure performance stubs whose result does not influence what the harness observes).
+	ReplaceAlways map[string]string `json:"replace_always"`
 	MapOrder    bool              `json:"map_order"`
 	Preemptions int               `json:"preemptions"`
 	EnvFires    int               `json:"env_fires"`
@@ -276,7 +279,7 @@ func defaultNoop(mod string) []string {
 
 func (p *Program) newInterp(spec *Unit, hs *HarnessSpec, tier string, ex *Explorer) *Interp {
 	in := &Interp{prog: p.prog, ex: ex, spec: spec, modPath: p.modPath, mainPkg: p.pkg,
-		noopPkgs: map[string]bool{}, initPkgs: map[string]bool{}, replace: map[string]*ssa.Function{},
+		noopPkgs: map[string]bool{}, initPkgs: map[string]bool{}, replace: map[string]*ssa.Function{}, replaceAlways: map[string]bool{},
 		methodCache: map[string]*ssa.Function{}}
 	for _, n := range defaultNoop(p.modPath) {
 		in.noopPkgs[n] = true
@@ -301,6 +304,10 @@ func (p *Program) newInterp(spec *Unit, hs *HarnessSpec, tier string, ex *Explor
 	}
 	for from, to := range spec.Replace {
 		in.replace[resolve(from).String()] = resolve(to)
+	}
+	for from, to := range spec.ReplaceAlways {
+		in.replace[resolve(from).String()] = resolve(to)
+		in.replaceAlways[resolve(from).String()] = true
 	}
 	if hs != nil {
 		for from, to := range hs.Replace {
